@@ -626,6 +626,6 @@ func uniq(in []string) []string {
 func TestInputEnd(t *testing.T) {
 	pbt.Run(t, pbt.Spec[Case]{
 		ID: "C16", Name: "input-end", Gen: genCase, Run: run, Classify: classify,
-		Quick: 200, Thorough: 2000, Isolate: true,
+		Quick: 200, Thorough: 1500, Isolate: true,
 	})
 }
